@@ -545,6 +545,11 @@ def show(t, depth=0) -> str:
     if not isinstance(t, tuple) or not t:
         return repr(t)
     h = t[0]
+    if not isinstance(h, str):
+        return "(" + ", ".join(show(x) for x in t) + ")"
+    if h == "comp":
+        gens = " ".join(f"for {show(g[0])} in {show(g[1])}" + "".join(f" if {show(c)}" for c in g[2]) for g in t[3])
+        return "[" + ", ".join(show(x) for x in t[2]) + " " + gens + "]"
     if h == "c":
         return repr(t[1])
     if h in ("n", "b", "g"):
